@@ -406,3 +406,72 @@ func typeKey
   ensures float64-at-full-precision: hasType(v, float64) ==> result == "float64|" + strconv.FormatFloat(realval(v), 103, -1, 64)
   ensures bools: hasType(v, bool) ==> result == ite(boolval(v), "bool|true", "bool|false")
 @*/
+
+/*@
+// ---------------------------------------------------------------- C01/C08: per-batch aggregation and window_id stamping
+func stampWindowID
+  props C01 C08 C02
+  option safety
+  requires forall(i, 0, len(results), results[i] != nil)
+  modifies allmaps
+  observe id := Sprintf
+  before Sprintf the-id-is-made-of-the-bounds-of-the-batch-interval: len($arg1) == 2 && $arg1[0] == boxof(*batch[0].Slot.Start, int64) && $arg1[1] == boxof(*batch[0].Slot.End, int64)
+  ensures every-result-carries-the-id-of-the-batch-interval: len(batch) > 0 && batch[0].Slot != nil && batch[0].Slot.Start != nil && batch[0].Slot.End != nil ==> forall(i, 0, len(results), results[i] != nil ==> dom(results[i], "window_id") && results[i]["window_id"] == boxof($id, string))
+  loop 1 invariant forall(j, 0, $i, $s[j] != nil ==> dom($s[j], "window_id") && $s[j]["window_id"] == boxof(id, string)) && $s == results
+
+func (*DataProcessor).processWindowBatch
+  props C01 C08
+  modifies *
+  count adds := Add
+  observe res := GetResults
+  before Add rows-are-aggregated-in-batch-order-each-once: $arg1 == batch[$adds].Data && $adds < len(batch)
+  before stampWindowID results-of-this-batch-get-this-batchs-interval: $arg0 == $res && $arg1 == batch && $adds == len(batch)
+  before Reset accumulators-restart-only-after-the-results-were-taken: $adds == len(batch)
+  loop 1 invariant true
+  loop 2 invariant $adds == $i && $s == batch
+@*/
+
+/*@
+// ---------------------------------------------------------------- C14: per-partition state lookup and WHEN gating
+// entryOf(fe, k): the partition entry stored under key k (the LRU list element's value)
+pred entryOf(fe, k) := unbox(fe.partitions[k].Value, *partitionEntry)
+
+func (*analyticFieldEngine).getStateLocked
+  props C14
+  option callbacks_pure
+  requires fe != nil
+  modifies fe.noPart, mapof(fe.partitions), mapof(fe.lastResults), heap(list.Element.Value)
+  ensures without-partition-by-there-is-one-shared-state: fe.af.Over == nil || len(fe.af.Over.PartitionBy) == 0 ==> seqeq(result, fe.noPart) && (old(fe.noPart) != nil ==> seqeq(fe.noPart, old(fe.noPart)))
+  ensures a-known-partition-gets-its-own-state-back: fe.af.Over != nil && len(fe.af.Over.PartitionBy) > 0 && old(dom(fe.partitions, partKey)) ==> seqeq(result, old(entryOf(fe, partKey).states))
+  ensures a-hit-leaves-the-partition-table-alone: fe.af.Over != nil && len(fe.af.Over.PartitionBy) > 0 && old(dom(fe.partitions, partKey)) ==> mapUnchanged(fe.partitions)
+  ensures a-new-partition-is-registered-under-its-own-key-with-the-states-it-returns: fe.af.Over != nil && len(fe.af.Over.PartitionBy) > 0 && !old(dom(fe.partitions, partKey)) && dom(fe.partitions, partKey) ==> fresh(fe.partitions[partKey]) && entryOf(fe, partKey).key == partKey && seqeq(result, entryOf(fe, partKey).states)
+  ensures other-partitions-keep-their-entry-or-are-evicted-whole: fe.af.Over != nil && len(fe.af.Over.PartitionBy) > 0 ==> forallv(k, "", k != partKey && dom(fe.partitions, k) ==> old(dom(fe.partitions, k)) && fe.partitions[k] == old(fe.partitions[k]))
+@*/
+
+/*@
+extern (*analyticFieldEngine).partitionKey
+  props C14
+  option pure
+
+extern (*analyticFieldEngine).applyCall
+  props C14
+  modifies *
+
+extern (*analyticFieldEngine).evaluateMultiColumn
+  props C14
+  modifies *
+
+extern (*analyticFieldEngine).evalWrapper
+  props C14
+  modifies *
+
+func (*analyticFieldEngine).evaluate
+  props C14
+  modifies *
+  observe pk := partitionKey
+  observe w := Evaluate
+  before Evaluate when-is-tested-on-this-row: $arg1 == boxof(row, map[string]any)
+  before getStateLocked state-is-looked-up-under-this-rows-own-partition-key: $arg1 == $pk
+  before getStateLocked rows-failing-when-do-not-advance-the-state: fe.whenCond == nil || $w
+  before applyCall the-function-is-applied-to-this-row-on-a-state-of-this-partition: $arg2 == row && exists(j, 0, len(calls), $arg4 == states[j] && $arg3 == calls[j])
+@*/
